@@ -64,3 +64,11 @@ Theorem get_is_plain_view :
     (0 < n /\ pos + n <= len data /\ b = sub data (N.to_nat pos) (N.to_nat n)).
 Proof. exact get_spec. Qed.
 Print Assumptions get_is_plain_view.
+
+(* The number of distinct subtable-reader calls (what the decode-once cache of
+   readLookupList lets the real subtable readers run) never exceeds the number
+   of calls the model logs. *)
+Theorem distinct_calls_bounded :
+  forall ls, (N.to_nat (distinct_calls ls) <= length (all_calls ls))%nat.
+Proof. exact distinct_calls_le. Qed.
+Print Assumptions distinct_calls_bounded.
